@@ -486,6 +486,23 @@ def run(ctx):
     ok = any(isinstance(c, ast.Call) and isinstance(c.func, ast.Attribute) and c.func.attr == "pop" and norm(c.func.value) == "self.studies"
              for c in own_nodes(f.node)) or any(isinstance(n, ast.Delete) and any(norm(t).startswith("self.studies[") for t in n.targets) for n in own_nodes(f.node))
     ctx.check(ok, "R08.7", f.short, "invalidate:studies", message="delete_study_cache does not drop the entry", how="pop/del of self.studies[study_id]")
+    # a study the server no longer knows (NOT_FOUND -> KeyError) loses its cache entry before the
+    # error leaves: with re-used ids the next study under that id must not inherit trials and watermark
+    f = gcache.methods.get("_read_trials_from_remote_storage")
+    ctx.require(f is not None, "R08.7: GrpcClientCache._read_trials_from_remote_storage vanished")
+    g = CFG(f.node, name=f.qualname)
+    kraise = [n for n in g.stmt_nodes() if n.kind == "stmt" and isinstance(n.ast, ast.Raise) and n.ast.exc is not None and "KeyError" in norm(n.ast.exc)]
+    drops = [n for n in g.stmt_nodes() if any(isinstance(c.func, ast.Attribute) and c.func.attr == "pop" and norm(c.func.value) == "self.studies" for c in n.calls())
+             or (n.kind == "stmt" and isinstance(n.ast, ast.Delete) and any(norm(t).startswith("self.studies[") for t in n.ast.targets))]
+    ctx.require(kraise, "R08.7: the NOT_FOUND -> KeyError translation in GrpcClientCache vanished")
+    # entries created by this very call need no drop: accept when no entry can exist on the path
+    stores = [n for n in g.stmt_nodes() if n.kind == "stmt" and isinstance(n.ast, ast.Assign) and any(norm(t).startswith("self.studies[") for t in n.ast.targets)]
+    for r in kraise:
+        ok = g.dominated_by(r, drops) if drops else False
+        ctx.check(ok, "R08.7", f.short, "invalidate:on-study-not-found",
+                  message="GrpcClientCache keeps the cache entry of a study the server reports as missing: after the id is re-used (SQLite) the proxy serves the deleted "
+                          "study's finished trials and watermark for the new study",
+                  how="`self.studies.pop(study_id)` dominates the KeyError raised for NOT_FOUND", where=where(f, r.ast))
     base = p.cls("optuna.storages._base.BaseStorage")
     writers = [m for m in base.methods if m.startswith("set_study_") and ("name" in m or "direction" in m)]
     ctx.check(not writers, "R08.7", base.module.relpath + "::BaseStorage", "no-name-direction-writers",
